@@ -331,6 +331,18 @@ func ClientRun(osenv *rsyncos.Env, opts *rsyncopts.Options, conn io.ReadWriter, 
 		if err != nil {
 			return nil, err
 		}
+		if opts.DeleteMode() {
+			// A receiver that deletes expects the filter list before the file
+			// list (see rsync/exclude.c:send_filter_list).
+			for _, rule := range opts.FilterRules() {
+				c.WriteInt32(int32(len(rule)))
+				c.WriteString(rule)
+			}
+			const exclusionListEnd = 0
+			if err := c.WriteInt32(exclusionListEnd); err != nil {
+				return nil, err
+			}
+		}
 		stats, err := st.Do(crd, cwr, FileSystemRoot, paths, excl)
 		if err != nil {
 			return nil, err
